@@ -675,6 +675,7 @@ func (fr *Frame) builtin(b *ssa.Builtin, c *ssa.CallCommon, args []Val, st *Stat
 
 // copyInto returns the new content array for dst after copying n elements from (srcArr, srcOff) to dstOff.
 func (vc *VC) copyElems(st *State, et types.Type, dstBase, dstOff, srcBase, srcOff, n *Term) {
+	defer vc.withTouch(dstBase)()
 	for _, l := range leaves(et) {
 		key := "E$" + typeKey(et) + l.Path
 		s := SArr(SRef, SArr(SInt, l.Sort))
@@ -716,7 +717,9 @@ func (fr *Frame) doCopy(c *ssa.CallCommon, args []Val, st *State, pos string) Va
 		j := mkVar("j!", SInt)
 		in := mkAnd(mkCmp("<=", dst.Off, j), mkCmp("<", j, mkAdd(dst.Off, n)))
 		vc.assume(st, mkForall([]*Term{j}, mkEq(mkSelect(nd, j), mkIte(in, mkSelect(content, mkSub(j, dst.Off)), mkSelect(d, j))), []*Term{mkSelect(nd, j)}))
+		restore := vc.withTouch(dst.Base)
 		vc.famSet(st, key, mkStore(arr, dst.Base, nd))
+		restore()
 	}
 	return &VS{n}
 }
@@ -768,7 +771,9 @@ func (fr *Frame) doAppend(c *ssa.CallCommon, args []Val, st *State, pos string) 
 		}
 		body := mkEq(mkSelect(nd, j), mkIte(inOld, mkSelect(old, mkAdd(s.Off, mkSub(j, res.Off))), mkIte(inNew, srcElem, mkSelect(oldRes, j))))
 		vc.assume(st, mkForall([]*Term{j}, body, []*Term{mkSelect(nd, j)}))
+		restore := vc.withTouch(resBase)
 		vc.famSet(st, key, mkStore(arr, resBase, nd))
+		restore()
 	}
 	return res
 }
